@@ -205,6 +205,29 @@ func c12Reader(r *eng.Run) {
 	r.Note("C12 wsflate.Reader over independent encoder %d level %d: %d -> %d bytes", which, level, len(msg), len(comp))
 	r.Res.Nontrivial = true
 	c12ReadBack(r, comp, msg, fmt.Sprintf("independent encoder %d level %d", which, level))
+	// One Reader for consecutive messages (Reset between them), as a
+	// connection handler would use it.
+	if r.T.Bool(sim.LHist) {
+		fr := wsflate.NewReader(nil, flateDtor)
+		for i := 0; i < 2+r.T.Int(sim.LHist, 2); i++ {
+			m := drawFlateMsg(r)
+			if len(m) > 3000 {
+				m = m[:3000]
+			}
+			src := NewPipe(r, deflateIndependent(m, r.T.Int(sim.LCfg, 2), 5))
+			src.SegMode = SegTiny
+			var rd io.Reader = src
+			if r.T.Bool(sim.LCfg) {
+				rd = &byteSrc{src}
+			}
+			fr.Reset(rd)
+			got, err := io.ReadAll(fr)
+			if err != nil || !bytes.Equal(got, m) {
+				r.Failf("roundtrip_mismatch", "reused wsflate.Reader, message %d (%d bytes): got %d bytes, err %v", i, len(m), len(got), err)
+			}
+		}
+		r.Probe("reader_reused_across_messages")
+	}
 }
 
 func c12Helpers(r *eng.Run) {
